@@ -49,7 +49,7 @@ func (a *Asm) Push(v *big.Int) *Asm {
 	return a
 }
 
-func (a *Asm) PushU(v uint64) *Asm          { return a.Push(new(big.Int).SetUint64(v)) }
+func (a *Asm) PushU(v uint64) *Asm            { return a.Push(new(big.Int).SetUint64(v)) }
 func (a *Asm) PushAddr(x common.Address) *Asm { return a.PushBytes(x.Bytes()) }
 
 func (a *Asm) PushBytes(b []byte) *Asm {
@@ -329,3 +329,8 @@ func (Guard) emit(a *Asm) {
 	l := a.NewLabel()
 	a.Op(vm.CALLDATASIZE).PushLabel(l).Op(vm.JUMPI, vm.STOP).Label(l)
 }
+
+// Raw emits literal bytecode.
+type Raw struct{ Code []byte }
+
+func (s Raw) emit(a *Asm) { a.code = append(a.code, s.Code...) }
